@@ -363,9 +363,20 @@ pub fn run(ctx: &Ctx, rep: &Report) -> Meta {
     let per_thread = ctx.tier.pick(36usize, 200usize);
     let jobs: Vec<usize> = (0..ctx.tier.pick(6usize, 12usize)).collect();
     par_items(ctx, rep, "long-lived-prover-thread", &jobs, |&j| {
-        // shift the phase of any per-thread counter differently on every thread
-        for _ in 0..j * 37 {
-            let _ = zkryptium::utils::random::random_bits(1 + (j as u32 * 101) % 1500);
+        // bring any per-thread counter of the library's generator close to a power of two, differently on every
+        // thread: the number of 32-bit words drawn so far is put ~300 below 2^16, 2^17 (= 2^16 64-bit words), 2^15,
+        // 2^18, 2^20 and 2^14 (= 2^16 octets), so that the boundary is crossed while the first proofs are generated
+        {
+            let target: u64 = [(1u64 << 16) - 300, (1 << 17) - 600, (1 << 15) - 300, (1 << 18) - 300, (1 << 20) - 300, (1 << 14) - 100][j % 6];
+            let mut left = target;
+            while left > 0 {
+                let w = left.min(1000);
+                let _ = zkryptium::utils::random::random_bits(32 * w as u32);
+                left -= w;
+            }
+            for _ in 0..j * 3 {
+                let _ = zkryptium::utils::random::random_bits(1 + (j as u32 * 101) % 1500);
+            }
         }
         let mut st = ctx.seed ^ (0x10_0000 + j as u64);
         for k in 0..per_thread {
@@ -411,7 +422,7 @@ pub fn run(ctx: &Ctx, rep: &Report) -> Meta {
                attacker program: every Fiat-Shamir challenge recomputable from public data (stored ones, C and C mod 2^128 of the interval proofs, and the (t, s1, s2) proofs' challenges recomputed as the verifier does and validated against the verification equation); \
                no response is congruent to 0 or 1 modulo a challenge (unblinded response, no secret needed); for every integer leaf s, every such challenge c and every other leaf s': | floor(s/c) - x | >= 2^64 and | floor(s/s') - x | >= 2^64 for every secret x the prover holds (hidden attributes, e, s, the randomness of C and of the trusted commitment); \
                additionally, with hidden attributes forced to 0 / 1, the response answering for each hidden attribute divided by its own challenge (sound for small values); for every square proof of every embedded range proof the public inverse map floor((floor(d/c)^2 + aa)/2^T), floor((bb - floor(d/c)^2)/2^T) must be >= 2^64 away from the committed value (hidden attribute, e, r); \
-               long-lived prover threads generate 36 (quick) / 200 (thorough) proofs each in sequence, every one judged; positive control: an under-blinded response is flagged, a properly blinded one is not; non-trivial = proof with >= 1 hidden attribute; evaluations = quotients judged"
+               long-lived prover threads generate 36 (quick) / 200 (thorough) proofs each in sequence, every one judged, after the thread has drawn a number of words just below 2^14 ... 2^20 (a different power of two per thread); positive control: an under-blinded response is flagged, a properly blinded one is not; non-trivial = proof with >= 1 hidden attribute; evaluations = quotients judged"
             .into(),
         assumptions: vec![
             "randomness of the commitments made inside proof generation (rx, rw, re, w, r_i) is not known to the harness and is judged only where the division yields a known secret".into(),
